@@ -83,7 +83,12 @@ def gen_unit(rng):
         args += ["--take", str(rng.choice((0, 1, 2, 5, 50, 2 ** 64 - 1, 2 ** 63, 2 ** 63 - 1, 10 ** 15)))]
         up.append("take")
     out = rng.choice([[], [], ["--style", "consise"], ["--style", "pretty"], ["-o", "text"]])
-    unit = {"input": records.to_input(recs, rng), "args": args, "out": out, "upstream": sorted(set(up)),
+    tail = b""
+    if rng.random() < 0.1:
+        # the input ends inside a value (a cut-off log line): that value is noise, the rows before it are collected as usual
+        tail = b" " + rng.choice([b'{"g":"a","k":', b'[1, 2', b'"unterminated', b'{"g"', b"tru", b'{"g":"b","v":1,'])
+        up.append("cut-off-tail")
+    unit = {"input": records.to_input(recs, rng) + tail, "args": args, "out": out, "upstream": sorted(set(up)),
             "mode": rng.choice(["group", "group", "merge"]), "keycol": keycol}
     if rng.random() < 0.25:
         # the same records given as 1-3 files (cut between records) instead of stdin
